@@ -217,4 +217,14 @@ CHECKS = {
         assumptions=COMMON_ASSUMPTIONS + ["WebSocket and HTTP sub-checks use real loopback sockets and wall-clock budgets; exceeding a budget is reported as inconclusive (exit 2), never as a violation"],
         timeout_quick=600,
     ),
+    "C15": dict(
+        level="exploration",
+        rule=("the harness is compiled with -race and the generated workloads of the other properties (C01 unary bursts, C02 streams with separate sender and receiver goroutines and Header() concurrent with sends, C03, C04, C07 cancellations, C09 transport failures, C10 connection endings incl. Stop concurrent with traffic, "
+              "C11 abandonments, C16 proxy envelopes and RPCs, C17, C18 demux model and RPCs, C20 interceptors/stats) are executed at GOMAXPROCS 1, 2, 4 and 16 (go test -cpu) with a callback at every verif hook point that yields the processor according to a drawn tape. "
+              "The only oracle is the race detector (GORACE=halt_on_error=1): a report with at least one goat frame is a violation, a report without one is a harness bug (exit 2). Non-trivial = a workload with >=2 user goroutines on one connection; distinct = (family, case)."),
+        jobs=[dict(test="TestC15", race=True, cpu="1,2,4,16", quick=960, thorough=24000)],
+        floors={"family=c02": 0.05, "family=c10": 0.03, "family=c18": 0.03, "gomaxprocs=16": 0.2, "gomaxprocs=1": 0.2},
+        assumptions=COMMON_ASSUMPTIONS + ["the race detector only sees the interleavings that were executed: this is search, not proof"],
+        timeout_quick=900,
+    ),
 }
